@@ -83,6 +83,7 @@ type objRT struct {
 	stopFailed  bool               // a stop call returned an error: the object is not restarted (known finding C09 WaitGroup reuse)
 	stopIdle    chan struct{}      // closed when the last in-progress stop call returns
 	startCancel context.CancelFunc // cancels the context passed to the last Start
+	cbGen       int                // registrations of the callbacks so far
 	pendingCancels map[int]context.CancelFunc // contexts of Start calls that have not returned yet
 	pendingSeq     int
 	inStop      int
@@ -208,6 +209,12 @@ func (s *Sim) registerCallbacks(o *objRT) {
 		o.el.OnDemote(func() { s.sleepI(sp.DemoteDur) })
 		return
 	}
+	// every registration is a new pair of functions: a callback of an earlier registration that is still
+	// invoked after it was replaced is not "the" demotion callback
+	s.mu.Lock()
+	o.cbGen++
+	gen := o.cbGen
+	s.mu.Unlock()
 	o.el.OnPromote(func(ctx context.Context, token string) {
 		s.mu.Lock()
 		o.p++
@@ -250,6 +257,12 @@ func (s *Sim) registerCallbacks(o *objRT) {
 	})
 	o.el.OnDemote(func() {
 		s.mu.Lock()
+		if gen != o.cbGen {
+			// replaced before this invocation began: recorded, not counted
+			s.tr.CBs = append(s.tr.CBs, &CB{Seq: s.nextSeq(), T: s.now(), Obj: o.idx, Inst: o.in.idx, Kind: "stale-demote-enter", Token: o.el.Token(), Gid: gid()})
+			s.mu.Unlock()
+			return
+		}
 		o.d++
 		// the k-th OnDemote of an election ends its k-th term (when a Start overlapped a stop call, the next
 		// term may have begun before the OnDemote of the stopped one is delivered)
